@@ -138,7 +138,7 @@ pub fn run_all(args: &Args) {
     }
     out.count(&format!("rule-mode={}", rule_mode));
     let mut sorted = files.clone();
-    sorted.sort();
+    sorted.sort_by(|a, b| std::path::Path::new(a).cmp(std::path::Path::new(b)));
     out.count(&format!("expected-total={}", match expected { 0 => "0", 1 => "1", 2 => "2", _ => "3+" }));
     let meta = json!({"dir": dir, "files": files, "extra": extra, "per_file": per_file, "expected_count": expected, "with_fatal": with_fatal});
     let reference = run(BIN, &dir, &sorted, 1, &extra);
@@ -161,7 +161,8 @@ pub fn run_all(args: &Args) {
       let mut last = 0usize;
       let mut ok = true;
       for f in &sorted {
-        if let Some(i) = reference.1.find(&format!("/{}", f)) {
+        // (the whole path as printed: `/z4.ts` alone also occurs inside the alias `sub/../z4.ts`)
+        if let Some(i) = reference.1.find(&format!("{}/{}", dir, f)) {
           if i < last {
             ok = false;
           }
